@@ -673,6 +673,11 @@ def run(ctx, idx):
         has_param = init is not None and "lineno" in [a.arg for a in init.node.args.args]
         if not has_param:
             ctx.violate("C11.e", con, mod.rel, n.lineno, "%s has no lineno parameter" % r[1].name)
+        elif f.name == "clean" and f.cls is not None and idx.is_subclass(f.cls, "mpilot.params.Parameter") and isinstance(e, ast.Attribute) and e.attr == "lineno" \
+                and isinstance(e.value, ast.Name) and len(f.node.args.args) > 1 and e.value.id in K.derived_names(f, {f.node.args.args[1].arg}) | {f.node.args.args[1].arg}:
+            # inside a cleaner the offending object is the ARGUMENT being cleaned, whose line is the `lineno` parameter; the value
+            # may be a command (a reference), and `value.lineno` is then the line of the command referred to
+            ctx.violate("C11.e", con, mod.rel, n.lineno, "%s is raised with lineno=%s inside a cleaner: that is the line of the command the argument REFERS to (the producer), not of the argument being cleaned (the `lineno` parameter) - the command-line tool marks a command that is not at fault" % (r[1].name, K.src(e)))
         elif carries_line(e, f):
             ctx.hold("C11.e", con, mod.rel, n.lineno, "lineno <- %s" % K.src(e))
         else:
